@@ -10,7 +10,7 @@ CONSTANTS
   Tails <- TailsQuick
   MinCors = 2
   MaxCors = 2
-  Tokens = {"ROWLP", "ROW", "SET", "LP", "RP", "COMMA", "ARG", "ARGL", "ARGB", "F", "G", "EQ", "ONE", "DQ", "SQ", "LB", "RB", "LT", "BTW", "MINUS", "SP", "BSL", "SETCALL", "ROWCALL", "BIG", "DOT", "COND", "NULL", "TS", "RANGE", "TOPN", "STORE", "UROW", "CLEARROW", "NL", "NUL", "UTF", "OPTS", "COUNT", "NOT"}
+  Tokens = {"ROWLP", "ROW", "SET", "LP", "RP", "COMMA", "ARG", "ARGL", "ARGB", "F", "G", "EQ", "ONE", "DQ", "SQ", "LB", "RB", "LT", "BTW", "MINUS", "SP", "BSL", "SETCALL", "ROWCALL", "BIG", "DOT", "COND", "NULL", "TS", "RANGE", "TOPN", "STORE", "UROW", "CLEARROW", "NL", "NUL", "UTF", "OPTS", "COUNT", "NOT", "STOREG", "STOREB", "CLEARG", "SETG", "TOPNG", "ROWSG", "SUMG", "GROUPG"}
   MinToks = 4
   MaxToks = 6
   Nests <- NestsNone
